@@ -45,7 +45,7 @@ ASSUMPTIONS = [
 ]
 MUST_REACH = {"steps": 5000, "states": 300, "orphans_adopted": 20, "cascade_kills": 20, "region_moves": 20,
               "local_id_changes": 10, "teardowns": 20, "futures_resolved": 20, "futures_cancelled": 20, "reparents": 20,
-              "multi_orphan_lists": 10, "kills_of_unknown_with_orphans": 5, "steps_without_loop_iteration": 50, "requests_pending_when_object_left": 5}
+              "multi_orphan_lists": 10, "kills_of_unknown_with_orphans": 5, "steps_without_loop_iteration": 50, "requests_pending_when_object_left": 5, "object_manager_configs_covered": 3}
 
 HA = (1000 << 32) | 1000
 HB = (1001 << 32) | 1000
@@ -244,7 +244,16 @@ class World:
     def __init__(self, ctx):
         self.ctx = ctx
         settings = ProxySettings()
-        settings.ALLOW_AUTO_REQUEST_OBJECTS = False
+        # three configurations of the proxy's object manager, one per shard residue: nothing automatic (default of this rig),
+        # automatic re-requests of cache misses, viewer-object-cache mode
+        cfg = getattr(ctx, "shard", 0) % 3
+        settings.ALLOW_AUTO_REQUEST_OBJECTS = cfg == 1
+        settings.AUTOMATICALLY_REQUEST_MISSING_OBJECTS = cfg == 1
+        settings.USE_VIEWER_OBJECT_CACHE = cfg == 2
+        try:
+            ctx.cover("object_manager_configs", ["manual", "auto-request", "viewer-cache"][cfg])
+        except Exception:
+            pass
         self.rig = Rig(settings=settings)
         self.session = self.rig.add_session(("10.1.0.1", 13001), handle_xy=(1000, 1000))
         self.regions = {"A": self.session.regions[0]}
